@@ -984,18 +984,19 @@ impl FromStr for Epoch {
             };
 
             // This is a valid numerical format.
-            // Parse the time scale from the last three characters (TS trims white spaces).
-            let ts_str = s.get(s.len() - 3..).ok_or(HifitimeError::Parse {
+            // Parse the time scale from the trailing alphabetic token, whatever its length (TT, UTC, GPST, QZSST, ...).
+            let num_end = s.trim_end_matches(char::is_alphabetic).len();
+            let ts_str = s.get(num_end..).ok_or(HifitimeError::Parse {
                 source: ParsingError::TimeSystem,
                 details: "parsing from string",
             })?;
             let ts = TimeScale::from_str(ts_str).with_context(|_| ParseSnafu {
                 details: "parsing from string",
             })?;
-            // Iterate through the string to figure out where the numeric data starts and ends.
+            // The numeric data lies between the format identifier and the time scale.
             let start_idx = format.len();
             let num_str = s
-                .get(start_idx..s.len() - ts.formatted_len())
+                .get(start_idx..num_end)
                 .ok_or(HifitimeError::Parse {
                     source: ParsingError::ValueError,
                     details: "parsing as JD, MJD, or SEC",
@@ -1015,24 +1016,10 @@ impl FromStr for Epoch {
             match format {
                 "JD" => match ts {
                     TimeScale::ET => Ok(Self::from_jde_et(value)),
-                    TimeScale::TAI => Ok(Self::from_jde_tai(value)),
                     TimeScale::TDB => Ok(Self::from_jde_tdb(value)),
-                    TimeScale::UTC => Ok(Self::from_jde_utc(value)),
-                    _ => Err(HifitimeError::Parse {
-                        source: ParsingError::UnsupportedTimeSystem,
-                        details: "for Julian Date",
-                    }),
+                    ts => Ok(Self::from_jde_in_time_scale(value, ts)),
                 },
-                "MJD" => match ts {
-                    TimeScale::TAI => Ok(Self::from_mjd_tai(value)),
-                    TimeScale::UTC | TimeScale::GPST | TimeScale::BDT | TimeScale::GST => {
-                        Ok(Self::from_mjd_in_time_scale(value, ts))
-                    }
-                    _ => Err(HifitimeError::Parse {
-                        source: ParsingError::UnsupportedTimeSystem,
-                        details: "for Modified Julian Date",
-                    }),
-                },
+                "MJD" => Ok(Self::from_mjd_in_time_scale(value, ts)),
                 "SEC" => match ts {
                     TimeScale::TAI => Ok(Self::from_tai_seconds(value)),
                     TimeScale::ET => Ok(Self::from_et_seconds(value)),
